@@ -46,6 +46,8 @@ func init() {
 			{ID: "C07-R21", Title: "options that are rejected leave the VM's globals as they were", Floor: 1, Run: rejectedOptionsAreRolledBack},
 			{ID: "C07-R22", Title: "vm.globals is the conversion of what the host supplies now (shared with C08-R6)", Floor: 2, Run: c08r6},
 			{ID: "C07-R23", Title: "emptying the module table keeps the host's modules", Floor: 1, Run: resetKeepsTheHostModules},
+			{ID: "C07-R24", Title: "VM locks are released by defer", Floor: 3, Run: vmLocksAreReleasedByDefer},
+			{ID: "C07-R25", Title: "loaded code entries are fresh", Floor: 2, Run: loadedCodeEntriesAreFresh},
 		},
 	})
 }
